@@ -159,6 +159,10 @@ impl<'l> Uf2Write<'l>
 			{
 				return Err(WriteError::Alignment{len: block.len(), align: block.len() % self.align});
 			}
+			if block.len() > self.block_size
+			{
+				return Err(WriteError::Overflow{need: block.len(), have: self.block_size});
+			}
 			self.dst.check_write(&mut self.pos, BLOCK_LEN)?;
 			self.encode(addr, block, self.block_size as u32, no_flash);
 		}
